@@ -50,12 +50,21 @@ def short(run):
 
 
 def crash_key(stderr):
+    """a panic of the process: a verdict only if the first frame that is not the runtime's or the standard library's is the
+    repository's (a panic in harness code is the machinery's: (None, text))"""
     m = re.search(r"^(panic:|fatal error:)(.*)$", stderr, re.M)
     if not m:
         return None, None
-    fn = re.search(r"^(github\.com/spikeekips/mitum/[^\s(]+(?:\([^)]*\))?[^\s(]*)\(", stderr[m.end():], re.M)
-    name = fn.group(1).replace("github.com/spikeekips/mitum/", "") if fn else "unknown"
-    return "crash:" + name, m.group(0).strip()
+    for fm in re.finditer(r"^([A-Za-z0-9_./-]+?)\.[^\s/]*\(.*\)$", stderr[m.end():], re.M):
+        path = fm.group(1)
+        first = path.split("/")[0]
+        if path.startswith("github.com/spikeekips/mitum/"):
+            fn = fm.group(0).split("(")[0] if "(*" not in fm.group(0) else fm.group(0).rsplit("(", 1)[0]
+            return "crash:" + fn.replace("github.com/spikeekips/mitum/", ""), m.group(0).strip()
+        if first == "mitumverif":
+            return None, m.group(0).strip()
+        # runtime, panic, standard library (no dot in the first path element), other modules: keep looking
+    return None, m.group(0).strip()
 
 
 def validate(ctx, trace, by_id):
